@@ -318,13 +318,15 @@ fn cpu_ticks() -> u64 {
 /// exits with status 3 (the case in progress is in the `.cur` file).
 fn start_watchdog(out: &Path) {
     let limit_s: u64 = std::env::var("VERIF_CASE_CPU_S").ok().and_then(|s| s.parse().ok()).unwrap_or(60);
+    // (testing aid: the budget in ticks of 1/100 s)
+    let limit_ticks: u64 = std::env::var("VERIF_CASE_CPU_TICKS").ok().and_then(|s| s.parse().ok()).unwrap_or(limit_s * 100);
     let marker = out.with_extension("hang");
     CASE_START_TICKS.store(cpu_ticks(), std::sync::atomic::Ordering::Relaxed);
     std::thread::spawn(move || loop {
         std::thread::sleep(std::time::Duration::from_millis(250));
         let start = CASE_START_TICKS.load(std::sync::atomic::Ordering::Relaxed);
         let now = cpu_ticks();
-        if now.saturating_sub(start) > limit_s * 100 {
+        if now.saturating_sub(start) > limit_ticks {
             let _ = fs::write(&marker, format!("{} cpu ticks on one case", now - start));
             std::process::exit(3);
         }
@@ -361,6 +363,11 @@ pub fn known_match<'a>(known: &'a [Known], sig: &str) -> Option<&'a Known> {
 /// Run worker `w` of `n`: its share of every family. Writes a JSON report to `out`.
 pub fn run_worker(prop: &dyn Property, tier: Tier, seed: u64, w: u64, n: u64, out: &Path) {
     let known = load_known(prop.id());
+    // cases an earlier incarnation of this worker abandoned because they exceeded the per-case CPU
+    // budget ("<family> <hex>" per line): they are not evaluated again but counted as discarded
+    let skip: HashSet<String> = fs::read_to_string(out.with_extension("skip"))
+        .map(|t| t.lines().map(|l| l.trim().to_string()).filter(|l| !l.is_empty()).collect())
+        .unwrap_or_default();
     start_watchdog(out);
     let cur_path = out.with_extension("cur");
     let cur = std::cell::RefCell::new(CurFile::new(Some(&cur_path)));
@@ -382,6 +389,14 @@ pub fn run_worker(prop: &dyn Property, tier: Tier, seed: u64, w: u64, n: u64, ou
         let eval = |bytes: &[u8]| -> Result<(), TestCaseError> {
             cur.borrow_mut().set(fam.name, bytes);
             let counting = !failed.get();
+            if !skip.is_empty() && skip.contains(&format!("{} {}", fam.name, hex(bytes))) {
+                if counting {
+                    let mut st = stats.borrow_mut();
+                    st.evaluations += 1;
+                    *st.discards.entry("abandoned: the case exceeded the per-case CPU budget".to_string()).or_insert(0) += 1;
+                }
+                return Ok(());
+            }
             if !counting {
                 match shrink_started.get() {
                     None => shrink_started.set(Some(std::time::Instant::now())),
@@ -769,9 +784,31 @@ pub fn run_parent(prop: &dyn Property, tier: Tier, seed: u64) -> i32 {
             Tier::Quick => 900,
             Tier::Thorough => 7200,
         });
+    let spawn_worker = |w: u64, out: &Path| -> std::process::Child {
+        limited_command()
+            .arg(id)
+            .arg("--worker")
+            .arg(format!("{}/{}", w, n))
+            .arg("--tier")
+            .arg(tier.name())
+            .arg("--seed")
+            .arg(seed.to_string())
+            .arg("--out")
+            .arg(out)
+            .stdout(Stdio::null())
+            .stderr(
+                fs::File::create(out.with_extension("stderr"))
+                    .map(Stdio::from)
+                    .unwrap_or_else(|_| Stdio::null()),
+            )
+            .spawn()
+            .expect("spawn worker")
+    };
+    let mut abandoned_cases: u64 = 0;
     let mut children = Vec::new();
     for w in 0..n {
         let out = work.join(format!("w{}.json", w));
+        let _ = fs::remove_file(out.with_extension("skip"));
         let child = limited_command()
             .arg(id)
             .arg("--worker")
@@ -796,19 +833,42 @@ pub fn run_parent(prop: &dyn Property, tier: Tier, seed: u64) -> i32 {
     let mut seen_hang: HashSet<String> = HashSet::new();
     for (w, out, mut child) in children {
         // wait with backstop
+        let mut respawns = 0;
         let status = loop {
-            match child.try_wait() {
-                Ok(Some(st)) => break Some(st),
-                Ok(None) => {
-                    if start.elapsed().as_secs() > backstop_s {
-                        let _ = child.kill();
-                        let _ = child.wait();
-                        break None;
+            let status = loop {
+                match child.try_wait() {
+                    Ok(Some(st)) => break Some(st),
+                    Ok(None) => {
+                        if start.elapsed().as_secs() > backstop_s {
+                            let _ = child.kill();
+                            let _ = child.wait();
+                            break None;
+                        }
+                        std::thread::sleep(std::time::Duration::from_millis(20));
                     }
-                    std::thread::sleep(std::time::Duration::from_millis(20));
+                    Err(_) => break None,
                 }
-                Err(_) => break None,
+            };
+            // a case that exceeded the per-case CPU budget, in a property that says nothing about
+            // running time: set the case aside (counted as discarded) and run the worker's share again
+            // without it; a resource limit is not a verdict, on that case or on the whole run
+            if status.is_some() && !out.exists() && out.with_extension("hang").exists() && prop.hang_signature().is_none() && respawns < 4 {
+                let line = fs::read_to_string(out.with_extension("cur")).unwrap_or_default();
+                let line = line.trim();
+                if !line.is_empty() {
+                    let sk = out.with_extension("skip");
+                    let mut all = fs::read_to_string(&sk).unwrap_or_default();
+                    all.push_str(line);
+                    all.push('\n');
+                    let _ = fs::write(&sk, all);
+                    let _ = fs::remove_file(out.with_extension("hang"));
+                    abandoned_cases += 1;
+                    respawns += 1;
+                    child = spawn_worker(w, &out);
+                    continue;
+                }
             }
+            break status;
         };
         let stderr_text = fs::read(out.with_extension("stderr"))
             .map(|b| String::from_utf8_lossy(&b).to_string())
@@ -1008,6 +1068,12 @@ pub fn run_parent(prop: &dyn Property, tier: Tier, seed: u64) -> i32 {
                 ));
             }
         }
+    }
+    if abandoned_cases > 0 {
+        notes.push(format!(
+            "{} case(s) exceeded the per-case CPU budget and were set aside (counted under 'discarded'); the workers concerned ran their share again without them. A resource limit, not a verdict.",
+            abandoned_cases
+        ));
     }
     let exhaustive = fams.iter().any(|f| matches!(f.kind, FamilyKind::Enumerated { exhaustive: true, .. }));
     let mut coverage = json!({
